@@ -461,6 +461,99 @@ fn create_inbound_scmp_error(err: PacketPolicyError) -> scmp::model::ScmpMessage
     }
 }
 
+/// Verification hooks: the gateway's decision for one decrypted datagram, without sockets or a
+/// tunnel in front of it.
+#[cfg(feature = "verif-hooks")]
+pub mod verif_hooks {
+    use std::{net::IpAddr, sync::Arc};
+
+    use sciparse::{
+        address::{addr::ScionAddr, host_addr::ScionHostAddr},
+        identifier::isd_asn::IsdAsn,
+    };
+    use snap_tun::server::SnapTunAuthorization;
+
+    use super::{PACKET_BUF_SIZE, PacketPool, TunnelGateway};
+    use crate::{
+        dispatcher::Dispatcher,
+        tunnel_gateway::{NoopTunnelGatewayObserver, packet_policy::inbound_datagram_check},
+    };
+
+    /// What the gateway did with a datagram that came out of a client's tunnel.
+    #[derive(Debug)]
+    pub enum IngressDecision {
+        /// Handed to the dispatcher.
+        Dispatched,
+        /// Refused; these bytes are sent back through the tunnel.
+        ScmpReply(Vec<u8>),
+        /// Refused; the SCMP error did not fit the send buffer, nothing is sent.
+        NoReply,
+    }
+
+    struct NoAuthz;
+    impl SnapTunAuthorization for NoAuthz {
+        type SessionData = ();
+
+        fn is_authorized(&self, _: std::time::Instant, _: &[u8; 32]) -> Option<Arc<()>> {
+            None
+        }
+    }
+
+    /// Runs the `Forwarded` branch of [`TunnelGateway::start_server`] for single datagrams.
+    pub struct IngressHook {
+        pool: PacketPool,
+    }
+
+    impl Default for IngressHook {
+        fn default() -> Self {
+            Self::new()
+        }
+    }
+
+    impl IngressHook {
+        /// Creates the hook with its own send buffer pool.
+        pub fn new() -> Self {
+            Self {
+                pool: PacketPool::new(1),
+            }
+        }
+
+        /// Size of the gateway's send buffers.
+        pub const PACKET_BUF_SIZE: usize = PACKET_BUF_SIZE;
+
+        /// Decides one datagram received from the tunnel peer `from_ip`.
+        pub fn decide<D: Dispatcher + 'static>(
+            &self,
+            datagram: &[u8],
+            from_ip: IpAddr,
+            local_ip: IpAddr,
+            dispatcher: &D,
+        ) -> IngressDecision {
+            match inbound_datagram_check(datagram, from_ip) {
+                Ok(view) => {
+                    dispatcher.try_dispatch(view);
+                    IngressDecision::Dispatched
+                }
+                Err(e) => {
+                    let mut target_buf = self.pool.get();
+                    match TunnelGateway::<NoAuthz, D, NoopTunnelGatewayObserver>::create_scmp_error(
+                        e,
+                        ScionHostAddr::from(local_ip),
+                        ScionAddr::new(IsdAsn::WILDCARD, from_ip.into()),
+                        &mut target_buf,
+                    ) {
+                        Ok(n) => {
+                            target_buf.truncate(n);
+                            IngressDecision::ScmpReply(target_buf[..].to_vec())
+                        }
+                        Err(_) => IngressDecision::NoReply,
+                    }
+                }
+            }
+        }
+    }
+}
+
 #[cfg(test)]
 mod tests {
     use std::{
